@@ -4,9 +4,11 @@ import json, os, re, shutil, subprocess, sys, time, hashlib
 
 ROOT = os.path.dirname(os.path.dirname(os.path.abspath(__file__)))
 SPECS = os.path.join(ROOT, "specs")
-HARNESS = os.path.join(ROOT, "harness")
-WORK = os.path.join(ROOT, "work")
-EVID = os.path.join(ROOT, "evidence")
+# the three overrides exist only for tools/seeded_matrix.py, which tests the checks against a scratch copy of
+# the repository without touching /repo; registered commands never set them
+HARNESS = os.environ.get("VERIF_HARNESS_DIR", os.path.join(ROOT, "harness"))
+WORK = os.environ.get("VERIF_WORK_DIR", os.path.join(ROOT, "work"))
+EVID = os.environ.get("VERIF_EVID_DIR", os.path.join(ROOT, "evidence"))
 BIN = os.path.join(HARNESS, "target", "release", "circ-conf")
 TLC_WORKERS = int(os.environ.get("VERIF_TLC_WORKERS", "8"))
 
